@@ -102,7 +102,7 @@ def run(tier):
         if g.name.startswith("rnd") or e["start"] not in g.min_height():
             continue
         tn = {x: i for i, x in enumerate(e["t"]["tnames"])}
-        for w in lrcheck.short_strings(g, 3 if tier == "quick" else 5, cap=(200 if tier == "quick" else 4000)):
+        for w in lrcheck.short_strings(g, 3 if tier == "quick" else 4, cap=(200 if tier == "quick" else 800)):
             items, pos = [], 1 + (len(w) % 2)
             for i, wd in enumerate(w):
                 hi = pos + 1 + (i % 2)
@@ -122,7 +122,7 @@ def run(tier):
            "theorems": names, "certificates": {"checked": cobl, "valid": cdis},
            "evaluations": len(cases), "distinct_nontrivial": distinct,
            "rule": "grammars with `!` at several depths (corpus + random) x {lane, lalr[, lr1]}; sentences with 0-3 insert/delete/substitute/swap edits, unknown tokens, "
-                   "random strings; tokens carry gapped spans of width >= 1; plus ALL token strings up to length 3 (quick) / 5 (thorough) on the corpus grammars; non-trivial = Ok result containing at least one error node",
+                   "random strings; tokens carry gapped spans of width >= 1; plus ALL token strings up to length 3 (quick) / 4 (thorough) on the corpus grammars; non-trivial = Ok result containing at least one error node",
            "distribution": {"tables": len(c.ok), "exhaustive_short_inputs": nexh, "recovered": len(rec), "several_error_nodes": multi, "dropped_two_or_more": dropped2,
                             "with_popped_symbols": popped, "results": {k: sum(1 for d in dec if d["kind"] == k) for k in ("ok", "err", "panic", "budget")}},
            "samples": [dict(lrcheck.case_desc(c, x), implementation=d) for x, d in rec[:2]]}
